@@ -20,6 +20,9 @@ rsync -a /verif/known_findings.jsonl /verif/properties.jsonl $ISO/verif/
 rsync -a --delete /verif/models/ $ISO/verif/models/
 log=$ISO/verif/seed_$(basename "$seed")_$chk.log
 ( cd $ISO/harness && CARGO_NET_OFFLINE=true RUST_BACKTRACE=0 cargo build --release --offline ) > $ISO/build.log 2>&1 || { echo "build failed"; tail -20 $ISO/build.log; git -C $ISO/repo checkout -q -- .; exit 2; }
+if [ "$chk" = "C16" ]; then
+  ( cd $ISO/harness && RUSTFLAGS="-Zsanitizer=address --cfg glaredb_verif --check-cfg cfg(glaredb_verif)" CARGO_TARGET_DIR=$ISO/verif/target/asan CARGO_NET_OFFLINE=true cargo +nightly build --release --offline --target x86_64-unknown-linux-gnu ) > $ISO/build_asan.log 2>&1 || { echo "asan build failed"; tail -5 $ISO/build_asan.log; git -C $ISO/repo checkout -q -- .; exit 2; }
+fi
 VERIF_ROOT=$ISO/verif timeout "${SEED_TIMEOUT:-2400}" $ISO/target/release/vcheck "$chk" --tier "$tier" > "$log" 2>&1
 code=$?
 git -C $ISO/repo checkout -q -- . ; git -C $ISO/repo clean -fdq -- crates
